@@ -9,7 +9,8 @@ check_formula(const Plan& p, const Problem& pr, const RunCfg& rcg, const RunResu
   Explicit ex(pr);
   const int N = pr.num_subsets;
   // data-dependent part of the preconditioner: minus the approximate Hessian applied to a uniform image,
-  //   D_v = sum_b P_bv * min((P 1)_b / y_b, 1e4)   (the library's quotient rule: 0/.. = 0, capped at 1e4)
+  //   D_v = sum_b P_bv * min((P 1)_b / (y_b / n_b^2), 1e4)   (the library's quotient rule: 0/.. = 0, capped at 1e4;
+  //   n_b = bin efficiency: the data term is y times the squared normalisation factor)
   std::vector<double> ones((size_t)pr.nvox, 1.);
   std::vector<double> D((size_t)pr.nvox, 0.);
   for (size_t b = 0; b < pr.P.size(); ++b)
@@ -19,7 +20,8 @@ check_formula(const Plan& p, const Problem& pr, const RunCfg& rcg, const RunResu
         f1 += e.second;
       if (f1 <= 0)
         continue;
-      const double q = f1 > 1e4 * pr.yv[b] ? 1e4 : f1 / pr.yv[b];
+      const double yn = pr.yv[b] / (pr.nv[b] * pr.nv[b]);
+      const double q = f1 > 1e4 * yn ? 1e4 : f1 / yn;
       for (auto& e : pr.P[b])
         D[(size_t)e.first] += e.second * q;
     }
@@ -60,7 +62,7 @@ check_formula(const Plan& p, const Problem& pr, const RunCfg& rcg, const RunResu
             if (pr.yv[b] > 0)
               q = pr.yv[b] > 1e4 * f[b] ? 1e4 : pr.yv[b] / f[b];
             for (auto& e : pr.P[b])
-              g[(size_t)e.first] += e.second * (q - 1.);
+              g[(size_t)e.first] += e.second * (q - pr.nv[b]);
           }
       std::vector<double> Dk = D;
       if (rcg.quadratic_prior)
